@@ -118,6 +118,8 @@ func hasProp(ps []string, p string) bool {
 type runResult struct {
 	obls      []*Obl
 	covers    []*Obl
+	siteCovers []*Obl
+	siteOf    []*Obl
 	funcs     []funcReport
 	undecided []string
 	unbound   [][2]string // contracted functions whose obligations could not be generated: function, reason
@@ -409,6 +411,17 @@ func runProp(prop string) int {
 			}
 			rr.obls = append(rr.obls, o)
 			rr.ctxOf[o] = c
+			// cover of a guarded call site: the site is reachable under the facts assumed
+			// when its requirement was generated (a requirement proved only because the
+			// facts the contracts state contradict each other there proves nothing)
+			if o.Kind == "G" && o.Reach != "" && o.Reach != "true" && o.Reach != "false" && o.Cond != "true" {
+				q := o.Query
+				if i := strings.LastIndex(q, "(assert (not "+o.Cond+"))\n"); i >= 0 {
+					q = q[:i] + "(check-sat)\n"
+					rr.siteCovers = append(rr.siteCovers, &Obl{Name: o.Name + ".site-cover", Kind: "cover", Fn: o.Fn, Props: o.Props, Query: q})
+					rr.siteOf = append(rr.siteOf, o)
+				}
+			}
 		}
 		// cover: some return reachable under the assumptions
 		if len(c.retReach) > 0 && hasProp(con.Props, prop) {
@@ -497,6 +510,14 @@ func runProp(prop string) int {
 	// 5. discharge
 	discharge(rr.obls, timeout, *flagTier == "thorough")
 	dischargeCovers(rr.covers, timeout)
+	dischargeCovers(rr.siteCovers, timeout)
+	for i, cov := range rr.siteCovers {
+		if cov.Res.Result == "unsat" && rr.siteOf[i].Status == "discharged" {
+			o := rr.siteOf[i]
+			o.Status = "undecided"
+			o.Res = SolverRes{Result: "unknown", Solver: "site-cover", Output: "the guarded call site is unreachable under the facts the contracts state about the code before it: the facts contradict each other there, i.e. the contracts no longer describe this code (typically a second call of a function whose answer a rule fixes to one ghost constant)"}
+		}
+	}
 	for _, cov := range rr.covers {
 		if cov.Res.Result == "unsat" {
 			fmt.Printf("BROKEN-CHECK vacuous: no return of %s is reachable under its contract assumptions\n", cov.Fn)
